@@ -1,5 +1,6 @@
 import PSO.Proofs.FramingE2E
 import PSO.Proofs.FramingDuplex
+import PSO.Proofs.FramingDrain
 
 /-! A tiny concrete codec and concrete event lists, used by the non-vacuity `example`s of Props/C13. -/
 namespace PSO.Framing.Ex
@@ -9,14 +10,11 @@ open PSO PSO.Framing
 def cfg : Cfg Bool :=
   { enc := fun m => [if m then 1 else 0]
     dec := fun p => if p = [1] then some true else if p = [0] then some false else none
-    isNone := fun _ => false
     cbDisc := fun _ => false
     timeout := 10 }
 
-theorem noNone : NoNone cfg := fun _ _ _ => rfl
-
 theorem msgOk : ∀ m, MsgOk cfg m := by
-  intro m; cases m <;> exact ⟨rfl, by decide, rfl, rfl⟩
+  intro m; cases m <;> exact ⟨rfl, by decide, rfl⟩
 
 /-- frames of [true, false] then the first two bytes of a third frame, cut into 3+3 and 6 bytes, two READ events -/
 def reads : List (Nat × List Bytes) := [(1, [[1, 0, 0], [0, 1, 1]]), (5, [[0, 0, 0, 0, 1, 0]])]
@@ -64,5 +62,22 @@ theorem ioOkNeg : ∀ e ∈ ioEvsNeg, e.Ok := by
   intro e he
   simp only [ioEvsNeg, List.mem_cons, List.mem_nil_iff, or_false] at he
   rcases he with rfl | rfl | rfl | rfl <;> simp [IoEv.Ok, BenignSend]
+
+
+/-- a connected connection that has just had its first WRITE event (subscription READ|ERROR) -/
+def idle : Conn Bool := step cfg (Conn.init true 0) (writeEv 0 [])
+
+/-- five WRITE events on a writable socket that takes one byte at a time: enough for one frame -/
+def drips : List (Nat × List SendRes) := [(1, [.ret 1]), (2, [.ret 1, .again]), (3, [.ret 1]), (4, [.ret 1]), (5, [.ret 1, .ret 0])]
+
+theorem dripsWritable : ∀ e ∈ drips, Writable e.2 := by
+  intro e he
+  simp only [drips, List.mem_cons, List.mem_nil_iff, or_false] at he
+  rcases he with rfl | rfl | rfl | rfl | rfl
+  · exact ⟨1, [], rfl, by decide, by simp⟩
+  · exact ⟨1, [.again], rfl, by decide, by simp [BenignSend]⟩
+  · exact ⟨1, [], rfl, by decide, by simp⟩
+  · exact ⟨1, [], rfl, by decide, by simp⟩
+  · exact ⟨1, [.ret 0], rfl, by decide, by simp [BenignSend]⟩
 
 end PSO.Framing.Ex
